@@ -204,7 +204,8 @@ ASSUMPTIONS = [
 
 
 def select_m(name):
-    return name.startswith("post:C01:")
+    # the verdict on a mismatch must also stay the one recorded first (a later cause must not overwrite it)
+    return name.startswith("post:C01:") or name in ("post:C08:verdict-recorded-once", "post:C08:verdict-scary-justified")
 
 
 def tasks():
